@@ -46,6 +46,32 @@ def _one(t, fn, vfs):
             w.dst_req = "inbox/2026/out.bin"
             w.dst_path = "inbox/2026/out.bin"
             w.probe("C16.missing_parent_destination")
+        # a quarter of the runs: the application mounts its filestore object on the user AFTER the handlers were built
+        # (`user.vfs = ...`): "the virtual filestore object supplied with the user" is the one the user holds now. The old
+        # object is wired to a tripwire, so a handler that kept a reference to it shows
+        if w.tape.choose(4, "filestore mounted after handler construction") == 3:
+            from cfdpsim.stores import FaultyFilestore
+
+            class _Tripwire:
+                def __init__(self, who):
+                    self.who = who
+
+                def __getattr__(self, name):
+                    w.violate("C16.stale_filestore_object", f"{self.who}: {name} called on the filestore object the user no longer holds", "")
+
+                    def refuse(*a, **k):
+                        raise FileNotFoundError("stale filestore object")
+                    return refuse
+
+            for ent, attr in ((w.a, "vfs_a_user"), (w.b, "vfs_b")):
+                old = ent.user.vfs
+                new = FaultyFilestore(old.inner, old.decide, old.decide_x)
+                new.rejected = old.rejected
+                new.rejected_x = old.rejected_x
+                old.inner = _Tripwire(ent.name)
+                ent.user.vfs = new
+                setattr(w, attr, new)
+            w.probe("C16.filestore_remounted")
         return []
 
     ctx = fn(t, attach, force={"vfs": vfs})
